@@ -27,15 +27,15 @@ fn stub_lock<T: ?Sized>(m: &std::sync::Mutex<T>) -> std::sync::LockResult<std::s
 }
 
 /// One CRYPTO frame carrying 1..=4 bytes at ANY offset be_crypto_frame accepts
-/// (offset <= (2^62-1)/2, c04_frames_crypto_offset_bound_as_built) into a fresh crypto stream.
+/// (offset + length <= 2^62-1, c04_frames_crypto_offset_plus_len) into a fresh crypto stream.
 /// `limit`: Some(L) demands CRYPTO_BUFFER_EXCEEDED for data ending more than L bytes beyond what
 /// the TLS layer has consumed (nothing, here).
 fn crypto_recv(limit: Option<u64>) {
     let cs = CryptoStream::new(ArcSendWakers::default());
     let offset: u64 = kani::any();
-    kani::assume(offset <= VARINT_MAX / 2);
     let len: usize = kani::any();
     kani::assume(len >= 1 && len <= 4);
+    kani::assume(offset <= VARINT_MAX - len as u64);
     let data = Bytes::from_static(&SEQ).slice(0..len);
     let frame = CryptoFrame::new(VarInt::from_u64(offset).unwrap(), VarInt::from_u32(len as u32));
     let r = cs.incoming().recv_frame((frame, data));
@@ -63,7 +63,7 @@ fn crypto_recv(limit: Option<u64>) {
 #[kani::proof]
 #[kani::unwind(6)]
 #[kani::stub(std::sync::Mutex::lock, stub_lock)]
-fn c04_crypto_buffer_limit_enforced() {
+fn c04_p_crypto_buffer_limit_enforced() {
     crypto_recv(Some(1u64 << 32));
 }
 
